@@ -101,6 +101,29 @@ def gen_case(rng):
     return op, ta, la, tb, lb
 
 
+def sweep_cases():
+    """deterministic: every operator on an Int pair and a Float pair whose results tell the operators apart,
+    and the comparisons on equal operands — every typed handler runs on every check"""
+    out = []
+    for op in OPS:
+        out.append((op, "Int", "-7", "Int", "3"))
+        if op not in ("<<", ">>", "<<<", ">>>", "&", "&~", "|", "^"):
+            out.append((op, "Float", "-3.5", "Float", "-1.25"))
+            out.append((op, "Float", "-3.5", "Int", "3"))
+            out.append((op, "Int", "-7", "Float", "2.5"))
+    for op in CMPS:
+        out.append((op, "Int", "3", "Int", "3"))
+        out.append((op, "Float", "2.5", "Float", "2.5"))
+        out.append((op, "Int", "9223372036854775808", "Int", "9223372036854775807"))
+    for op in ("u-", "u+", "u~"):
+        out.append((op, "Int", "-7", "Int", "3"))
+        out.append((op, "Int", "9223372036854775808", "Int", "3"))
+    for op in ("u-", "u+"):
+        out.append((op, "Float", "0.0", "Int", "3"))
+        out.append((op, "Float", "-3.5", "Int", "3"))
+    return [c for c in out if not KNOWN_CRASH(c[0], c[1])]
+
+
 KNOWN_CRASH = lambda op, ta: op == "==" and ta == "Float"   # EQUAL_INT on a Float: kills the worker (known finding)
 
 
@@ -223,7 +246,7 @@ def run(ctx):
         rng = ctx.rng
         cases = []
         seen = set()
-        n = ctx.n(220, 3000)
+        n = ctx.n(120, 3000)
         tries = 0
         while len(cases) < n and tries < n * 20:
             tries += 1
@@ -232,6 +255,7 @@ def run(ctx):
                 continue
             seen.add(c)
             cases.append(c)
+        cases = sweep_cases() + cases
         lits = sorted({c[2] for c in cases} | {c[4] for c in cases})
         desc = describe(lits)
         lines = vlib.corpus_lines("C08")
